@@ -983,12 +983,18 @@ type logicalQuery struct {
 	Left, Right query
 
 	Do func(iterator, interface{}, interface{}) interface{}
+
+	done bool
 }
 
 func (l *logicalQuery) Select(t iterator) NodeNavigator {
+	if l.done {
+		return nil
+	}
 	// When a XPath expr is logical expression.
 	node := t.Current().Copy()
 	val := l.Evaluate(t)
+	l.done = true
 	switch val.(type) {
 	case bool:
 		if val.(bool) == true {
@@ -999,6 +1005,7 @@ func (l *logicalQuery) Select(t iterator) NodeNavigator {
 }
 
 func (l *logicalQuery) Evaluate(t iterator) interface{} {
+	l.done = false
 	m := l.Left.Evaluate(t)
 	n := l.Right.Evaluate(t)
 	return l.Do(t, m, n)
